@@ -6,16 +6,16 @@ set -u
 D="$(readlink -f "$1")"
 WT=$(mktemp -d /tmp/seedverify.XXXXXX)
 git -C /repo worktree add -q --detach "$WT" HEAD || exit 2
-cleanup() { git -C /repo worktree remove --force "$WT" >/dev/null 2>&1; rm -rf "$WT"; }
+cleanup() { git -C /repo worktree remove --force "$WT" >/dev/null 2>&1; rm -rf "$WT" /tmp/seedverify.$$.*.log; }
 trap cleanup EXIT
 cd "$WT"
 PYDEMO=/venv/bin/python     # demos of the NumPy-dependent properties run under /verif/.venv-np (as their checks do)
-case "$D" in *C12*|*C13*|*C15*|*C17*|*C37*|*C38*) [ -x /verif/.venv-np/bin/python ] && PYDEMO=/verif/.venv-np/bin/python ;; esac
-demo_clean=$(MPYC_REPO="$WT" PYTHONPATH="$WT" PYTHONHASHSEED=0 timeout 600 $PYDEMO "$D/demo.py" >/tmp/seedverify.clean.log 2>&1; echo $?)
+case "$D" in *C12*|*C13*|*C14*|*C15*|*C17*|*C37*|*C38*) [ -x /verif/.venv-np/bin/python ] && PYDEMO=/verif/.venv-np/bin/python ;; esac
+demo_clean=$(MPYC_REPO="$WT" PYTHONPATH="$WT" PYTHONHASHSEED=0 timeout 600 $PYDEMO "$D/demo.py" >/tmp/seedverify.$$.clean.log 2>&1; echo $?)
 if ! ( git apply "$D/patch.diff" 2>/dev/null || git apply -3 "$D/patch.diff" ); then echo "RESULT $D patch-does-not-apply"; exit 1; fi
-tests=$(timeout 900 /venv/bin/python -m pytest -q -p no:cacheprovider --timeout=900 tests >/tmp/seedverify.tests.log 2>&1; echo $?)
+tests=$(timeout 900 /venv/bin/python -m pytest -q -p no:cacheprovider --timeout=900 tests >/tmp/seedverify.$$.tests.log 2>&1; echo $?)
 if [ "$PYDEMO" != /venv/bin/python ] && [ "$tests" = 0 ]; then   # also the NumPy-dependent tests
-  tests=$(timeout 1800 $PYDEMO -m unittest discover -s tests >/tmp/seedverify.nptests.log 2>&1; echo $?)
+  tests=$(timeout 1800 $PYDEMO -m unittest discover -s tests >/tmp/seedverify.$$.nptests.log 2>&1; echo $?)
 fi
-demo_mut=$(MPYC_REPO="$WT" PYTHONPATH="$WT" PYTHONHASHSEED=0 timeout 600 $PYDEMO "$D/demo.py" >/tmp/seedverify.mut.log 2>&1; echo $?)
-echo "RESULT $D tests_rc=$tests demo_clean_rc=$demo_clean demo_mutated_rc=$demo_mut  ($(tail -1 /tmp/seedverify.tests.log))"
+demo_mut=$(MPYC_REPO="$WT" PYTHONPATH="$WT" PYTHONHASHSEED=0 timeout 600 $PYDEMO "$D/demo.py" >/tmp/seedverify.$$.mut.log 2>&1; echo $?)
+echo "RESULT $D tests_rc=$tests demo_clean_rc=$demo_clean demo_mutated_rc=$demo_mut  ($(tail -1 /tmp/seedverify.$$.tests.log))"
